@@ -189,101 +189,138 @@ fn status_of(c: u8) -> HealthStatus {
     }
 }
 
-/// Selection grid: 3 resources driven to every status vector, every strategy.
-fn selection_grid(rep: &mut Report) {
+/// Selection grid: `n` resources driven to every status vector (and, with `second`, from every
+/// vector on to every other vector one check later), every strategy.
+fn selection_grid(rep: &mut Report, n: usize, second: bool) {
     let strategies: Vec<(&str, SelectionStrategy)> = vec![
         ("first_available", SelectionStrategy::FirstAvailable),
         ("round_robin", SelectionStrategy::RoundRobin),
         ("prefer_healthy", SelectionStrategy::PreferHealthy),
         ("custom_last", SelectionStrategy::Custom(Arc::new(|s: &[HealthStatus]| if s.is_empty() { None } else { Some(s.len() - 1) }))),
     ];
+    let total = 4usize.pow(n as u32);
+    let decode = |code: usize| -> Vec<u8> { (0..n).map(|i| ((code / 4usize.pow(i as u32)) % 4) as u8).collect() };
     let mut reported = std::collections::BTreeSet::new();
     for (sname, strat) in strategies {
-        for code in 0..64u8 {
-            let vec3 = [code % 4, (code / 4) % 4, (code / 16) % 4];
-            let w = World::new(0, 10, Mode::Script, 1);
-            let v3 = vec3;
-            let checker = move |r: &String| {
-                let i: usize = r[1..].parse().unwrap();
-                let s = status_of(v3[i]);
-                async move { s }
-            };
-            let wrapper = HealthCheckWrapper::builder()
-                .with_context("r0".to_string(), "r0")
-                .with_context("r1".to_string(), "r1")
-                .with_context("r2".to_string(), "r2")
-                .with_checker(checker)
-                .with_interval(Duration::from_millis(INTERVAL))
-                .with_initial_delay(Duration::ZERO)
-                .with_timeout(Duration::from_millis(TIMEOUT))
-                .with_failure_threshold(1)
-                .with_success_threshold(1)
-                .with_selection_strategy(strat.clone())
-                .build();
-            w.block_on(wrapper.start());
-            w.block_on(async { tokio::time::sleep(Duration::from_millis(INTERVAL / 2)).await });
-            let published = w.block_on(wrapper.get_all_statuses());
-            let healthy: Vec<String> = published.iter().filter(|(_, s)| *s == HealthStatus::Healthy).map(|(n, _)| n.clone()).collect();
-            let usable: Vec<String> = published.iter().filter(|(_, s)| matches!(s, HealthStatus::Healthy | HealthStatus::Degraded)).map(|(n, _)| n.clone()).collect();
-            let mut viols: Vec<(String, String)> = vec![];
-            for (i, (n, s)) in published.iter().enumerate() {
-                if *s != status_of(vec3[i]) {
-                    viols.push(("status_mismatch".into(), format!("{n} published {:?}, its check answers {:?}", s, status_of(vec3[i]))));
+        for code in 0..total {
+            let seconds: Vec<Option<usize>> = if second { (0..total).map(Some).collect() } else { vec![None] };
+            for code2 in seconds {
+                let v1 = decode(code);
+                let w = World::new(0, 10, Mode::Script, 1);
+                let current: Arc<Mutex<Vec<u8>>> = Arc::new(Mutex::new(v1.clone()));
+                let cur = current.clone();
+                let checker = move |r: &String| {
+                    let i: usize = r[1..].parse().unwrap();
+                    let s = status_of(cur.lock().unwrap()[i]);
+                    async move { s }
+                };
+                let mut b = HealthCheckWrapper::builder();
+                for i in 0..n {
+                    b = b.with_context(format!("r{i}"), format!("r{i}"));
                 }
-            }
-            for (which, set) in [("get_healthy", &healthy), ("get_usable", &usable)] {
-                let mut picks = vec![];
-                let rounds = 2 * set.len().max(1);
-                for _ in 0..rounds {
-                    let p = if which == "get_healthy" { w.block_on(wrapper.get_healthy()) } else { w.block_on(wrapper.get_usable()) };
-                    rep.evaluations += 1;
-                    match &p {
-                        None => {
-                            if !set.is_empty() {
-                                viols.push(("none_although_eligible".into(), format!("{which} returned None with eligible set {set:?}")));
-                            }
-                        }
-                        Some(r) => {
-                            if !set.contains(r) {
-                                viols.push(("ineligible_selected".into(), format!("{which} returned {r}, eligible set {set:?} (statuses {published:?})")));
+                let wrapper = b
+                    .with_checker(checker)
+                    .with_interval(Duration::from_millis(INTERVAL))
+                    .with_initial_delay(Duration::ZERO)
+                    .with_timeout(Duration::from_millis(TIMEOUT))
+                    .with_failure_threshold(1)
+                    .with_success_threshold(1)
+                    .with_selection_strategy(strat.clone())
+                    .build();
+                w.block_on(wrapper.start());
+                w.block_on(async { tokio::time::sleep(Duration::from_millis(INTERVAL / 2)).await });
+                let mut viols: Vec<(String, String)> = vec![];
+                // expected published status per resource: an unknown result changes nothing
+                let mut expected: Vec<HealthStatus> = v1.iter().map(|c| status_of(*c)).collect();
+                let phases: Vec<Vec<u8>> = match code2 {
+                    Some(c2) => vec![v1.clone(), decode(c2)],
+                    None => vec![v1.clone()],
+                };
+                for (ph, vnow) in phases.iter().enumerate() {
+                    if ph == 1 {
+                        *current.lock().unwrap() = vnow.clone();
+                        w.block_on(async { tokio::time::sleep(Duration::from_millis(INTERVAL)).await });
+                        for i in 0..n {
+                            if status_of(vnow[i]) != HealthStatus::Unknown {
+                                expected[i] = status_of(vnow[i]);
                             }
                         }
                     }
-                    picks.push(p);
-                }
-                if sname == "round_robin" && set.len() >= 2 {
-                    // any n consecutive selections over a stable eligible set of size n visit each member once
-                    let n = set.len();
-                    for win in picks.windows(n) {
-                        let mut seen: Vec<String> = win.iter().flatten().cloned().collect();
-                        seen.sort();
-                        seen.dedup();
-                        if seen.len() != n {
-                            viols.push(("round_robin_uneven".into(), format!("{which}: {n} consecutive selections {win:?} over eligible set {set:?}")));
-                            break;
+                    let published = w.block_on(wrapper.get_all_statuses());
+                    let healthy: Vec<String> = published.iter().filter(|(_, s)| *s == HealthStatus::Healthy).map(|(n, _)| n.clone()).collect();
+                    let usable: Vec<String> = published.iter().filter(|(_, s)| matches!(s, HealthStatus::Healthy | HealthStatus::Degraded)).map(|(n, _)| n.clone()).collect();
+                    for (i, (name, s)) in published.iter().enumerate() {
+                        if *s != expected[i] {
+                            viols.push(("status_mismatch".into(), format!("{name} published {:?}, the documented rule gives {:?} (check answers so far {:?})", s, expected[i], &phases[..=ph])));
                         }
                     }
-                    rep.witness("round_robin_over_several", 1);
+                    for (which, set) in [("get_healthy", &healthy), ("get_usable", &usable)] {
+                        let mut picks = vec![];
+                        let rounds = 2 * set.len().max(1);
+                        for _ in 0..rounds {
+                            let p = if which == "get_healthy" { w.block_on(wrapper.get_healthy()) } else { w.block_on(wrapper.get_usable()) };
+                            rep.evaluations += 1;
+                            match &p {
+                                None => {
+                                    if !set.is_empty() {
+                                        viols.push(("none_although_eligible".into(), format!("{which} returned None with eligible set {set:?}")));
+                                    }
+                                }
+                                Some(r) => {
+                                    if !set.contains(r) {
+                                        viols.push(("ineligible_selected".into(), format!("{which} returned {r}, eligible set {set:?} (statuses {published:?})")));
+                                    }
+                                }
+                            }
+                            picks.push(p);
+                        }
+                        if sname == "round_robin" && set.len() >= 2 {
+                            // any n consecutive selections over a stable eligible set of size n visit each member once
+                            let k = set.len();
+                            for win in picks.windows(k) {
+                                let mut seen: Vec<String> = win.iter().flatten().cloned().collect();
+                                seen.sort();
+                                seen.dedup();
+                                if seen.len() != k {
+                                    viols.push(("round_robin_uneven".into(), format!("{which}: {k} consecutive selections {win:?} over eligible set {set:?}")));
+                                    break;
+                                }
+                            }
+                            rep.witness("round_robin_over_several", 1);
+                            if ph == 1 {
+                                rep.witness("round_robin_after_the_eligible_set_changed", 1);
+                            }
+                        }
+                        rep.distinct.insert(format!("{sname}|{:?}|{which}|{:?}", &phases[..=ph], picks.first()));
+                    }
+                    if healthy.is_empty() {
+                        rep.witness("no_healthy_resource", 1);
+                    }
                 }
-                rep.distinct.insert(format!("{sname}|{vec3:?}|{which}|{:?}", picks.first()));
-            }
-            if healthy.is_empty() {
-                rep.witness("no_healthy_resource", 1);
-            }
-            w.block_on(wrapper.stop());
-            for (kind, detail) in viols {
-                if reported.insert(format!("{kind}/{sname}")) {
-                    rep.violations.push(Violation { property: "C18".into(), kind, site: sname.into(), config: format!("selection strategy={sname}"), history: json!({"statuses": vec3.iter().map(|c| format!("{:?}", status_of(*c))).collect::<Vec<_>>()}), detail, log: vec![] });
+                w.block_on(wrapper.stop());
+                for (kind, detail) in viols {
+                    if reported.insert(format!("{kind}/{sname}")) {
+                        rep.violations.push(Violation {
+                            property: "C18".into(),
+                            kind,
+                            site: sname.into(),
+                            config: format!("selection strategy={sname} resources={n}"),
+                            history: json!({"statuses": phases.iter().map(|v| v.iter().map(|c| format!("{:?}", status_of(*c))).collect::<Vec<_>>()).collect::<Vec<_>>()}),
+                            detail,
+                            log: vec![],
+                        });
+                    }
                 }
             }
         }
     }
 }
 
-fn hist_configs() -> Vec<Hist> {
+fn hist_configs(tier: Tier) -> Vec<Hist> {
     let mut v = vec![];
-    for ft in 1..=3 {
-        for st in 1..=3 {
+    let top = tier.pick(3, 4);
+    for ft in 1..=top {
+        for st in 1..=top {
             v.push(Hist { ft, st });
         }
     }
@@ -301,7 +338,8 @@ fn main() {
         let v = trv_core::load_replay(&p);
         if v["config"].as_str().unwrap_or("").starts_with("selection") {
             let mut rep = Report::new("C18", Tier::Quick, "model_checking");
-            selection_grid(&mut rep);
+            selection_grid(&mut rep, 3, true);
+            selection_grid(&mut rep, 4, false);
             let kind = v["kind"].as_str().unwrap_or("");
             if rep.violations.iter().any(|x| x.kind == kind) {
                 println!("VIOLATION property=C18 replay={p}");
@@ -310,18 +348,18 @@ fn main() {
             println!("replay: the recorded violation does not occur on the current tree");
             std::process::exit(0);
         }
-        seq::replay_seq_main("C18", &p, hist_configs());
+        seq::replay_seq_main("C18", &p, hist_configs(Tier::Thorough));
     }
     let tier = cli.tier;
     let mut rep = Report::new("C18", tier, "model_checking");
-    rep.rule = "BFS over per-interval check results {healthy, unhealthy, degraded, unknown, slower than the check timeout} of one resource on the real HealthCheckWrapper (background task under virtual time, one interval per step) for thresholds (failure, success) in {1,2,3}^2, in lock-step with a reference model; plus the full grid of 3 resources x every status vector in {H,D,U,K}^3 x 4 selection strategies. evaluations = selections made; distinct = distinct (strategy, status vector, getter, first pick)".into();
+    rep.rule = "BFS over per-interval check results {healthy, unhealthy, degraded, unknown, slower than the check timeout} of one resource on the real HealthCheckWrapper (background task under virtual time, one interval per step) for thresholds (failure, success) in {1,2,3}^2 (thorough: {1..4}^2), in lock-step with a reference model; plus the full grid of 3 resources x every status vector in {H,D,U,K}^3 x every vector one check later x 4 selection strategies (thorough: also 4 resources x {H,D,U,K}^4). evaluations = selections made; distinct = distinct (strategy, status vector, getter, first pick)".into();
     rep.assumptions = vec!["checks run in tokio-spawned tasks driven by virtual time; results are sampled half an interval after each check".into()];
     for w in ["status_changed", "check_timed_out", "failure_below_threshold_kept_status", "success_below_threshold_kept_status", "round_robin_over_several", "no_healthy_resource"] {
         rep.require_witness(w);
     }
     let depth = tier.pick(9, 12);
     rep.bounds = json!({"depth": depth, "threshold_pairs": 9, "selection_status_vectors": 64, "strategies": 4});
-    let cfgs = hist_configs();
+    let cfgs = hist_configs(tier);
     seq::par_configs(&cfgs, &mut rep, |s, r| {
         seq::explore_seq(s, depth, true, r);
     });
@@ -339,6 +377,12 @@ fn main() {
         }
         rep.extra.insert("abstraction_validation".into(), json!({"depth": 5, "mismatches": mism}));
     }
-    selection_grid(&mut rep);
+    // quick: 3 resources, every status vector and every vector one check later (64 x 64);
+    // thorough: additionally 4 resources (256 vectors)
+    selection_grid(&mut rep, 3, true);
+    if tier == Tier::Thorough {
+        selection_grid(&mut rep, 4, false);
+    }
+    rep.require_witness("round_robin_after_the_eligible_set_changed");
     trv_core::finish(rep);
 }
